@@ -1,17 +1,22 @@
 #!/bin/bash
 # Full .vo build of the Coq development (regenerates _CoqProject from the file list). Usage: build.sh [jobs]
+# The whole script runs under one lock, so that concurrent checks (different properties at the same time) cannot
+# interleave the regeneration of _CoqProject/Makefile with each other's `make`.
 set -e
 cd "$(dirname "$0")"
 J=${1:-16}
+exec 9> .build.lock
+flock 9
+NEW=_CoqProject.new.$$
 {
   echo "-Q theories Verif"
   echo "-arg -w -arg -notation-overridden,-deprecated-hint-without-locality,-deprecated-syntactic-definition"
   find theories -name '*.v' | LC_ALL=C sort
-} > _CoqProject.new
-if ! cmp -s _CoqProject.new _CoqProject 2>/dev/null || [ ! -f Makefile ]; then
-  mv _CoqProject.new _CoqProject
+} > "$NEW"
+if ! cmp -s "$NEW" _CoqProject 2>/dev/null || [ ! -f Makefile ]; then
+  mv "$NEW" _CoqProject
   coq_makefile -f _CoqProject -o Makefile > /dev/null
 else
-  rm -f _CoqProject.new
+  rm -f "$NEW"
 fi
-exec flock .build.lock timeout 3000 make -j"$J"
+timeout 3000 make -j"$J"
